@@ -8,6 +8,7 @@ import (
 	"sort"
 	"strings"
 	"sync"
+	"sync/atomic"
 	"time"
 
 	"verifmc/core"
@@ -320,12 +321,15 @@ func freeRun() {
 	installHook()
 	bad := 0
 	outcomes := map[string]map[string]int{}
+	panics := map[string]int{}
+	notSeq := map[string]int{}
 	for i := range scenarios {
 		sc := &scenarios[i]
 		seq := sc.sequential()
 		outcomes[sc.Name] = map[string]int{}
 		for rep := 0; rep < reps; rep++ {
 			in, bg := sc.prepare()
+			var panicked atomic.Value
 			freeRunning = true
 			var wg sync.WaitGroup
 			start := make(chan struct{})
@@ -336,7 +340,15 @@ func freeRun() {
 					defer wg.Done()
 					<-start
 					for _, req := range reqs {
-						in.record(fmt.Sprintf("T%d", ti), req, in.do(req))
+						func() {
+							defer func() {
+								if p := recover(); p != nil {
+									in.record(fmt.Sprintf("T%d", ti), req, fmt.Sprintf("PANIC %v", p))
+									panicked.Store(fmt.Sprintf("request %q panics: %v", req, p))
+								}
+							}()
+							in.record(fmt.Sprintf("T%d", ti), req, in.do(req))
+						}()
 					}
 				}()
 			}
@@ -351,6 +363,10 @@ func freeRun() {
 			freeRunning = false
 			ob := in.observe()
 			in.destroy()
+			if p := panicked.Load(); p != nil {
+				bad++
+				panics[sc.Name+": "+p.(string)]++
+			}
 			outcomes[sc.Name][ob.Outcome]++
 			for _, b := range ob.Bad {
 				bad++
@@ -358,10 +374,16 @@ func freeRun() {
 			}
 			if _, ok := seq.Outcomes[ob.Outcome]; !ok {
 				bad++
-				fmt.Printf("FREE-RUN scenario %s: outcome not sequential: %s\n", sc.Name, ob.Outcome)
+				notSeq[sc.Name+": "+ob.Outcome]++
 			}
 		}
 		fmt.Printf("free-run %-32s reps=%d distinct outcomes=%d (sequential outcomes %d)\n", sc.Name, reps, len(outcomes[sc.Name]), len(seq.Outcomes))
+	}
+	for k, n := range panics {
+		fmt.Printf("FREE-RUN %d x %s\n", n, k)
+	}
+	for k, n := range notSeq {
+		fmt.Printf("FREE-RUN %d x outcome not sequential: %s\n", n, clip(k, 400))
 	}
 	if bad > 0 {
 		os.Exit(1)
